@@ -59,7 +59,7 @@ func (propC05) Gen(seed uint64, tier string, idx int) *Plan {
 	failedStream := ""
 	if mode == "failed-stream" {
 		p.Stack.Passthrough = false
-		failedStream = pickS(r, []string{"cut-after-role", "all-malformed-then-done", "oversized-first-line", "comments-then-cut", "comments-then-text", "done-then-oversized-line"})
+		failedStream = pickS(r, []string{"cut-after-role", "all-malformed-then-done", "oversized-first-line", "comments-then-cut", "comments-then-text", "done-then-oversized-line", "inband-error-only", "inband-error-after-text"})
 		if (failedStream == "oversized-first-line" || failedStream == "done-then-oversized-line") && p.Net.MaxSegment < 16384 {
 			p.Net.MaxSegment = 16384 // a megabyte in 7-byte segments is a hundred thousand events that decide nothing
 		}
@@ -118,6 +118,22 @@ func (propC05) Gen(seed uint64, tier string, idx int) *Plan {
 				ep.Default = Resp{Status: 200, CType: "text/event-stream", Framing: framing, Chunks: []Chunk{{Data: "data: {'id':'c1','choices':[{'delta':{'content':'Hello'}}]}\n\n"}, {Data: "data: {\"id\":\"c1\",\"choices\":[{\"delta\":{\"content\":\" world\"}\n\n"}, {Data: done}}}
 			case "oversized-first-line":
 				ep.Default = Resp{Status: 200, CType: pickS(r, []string{"text/event-stream", "text/plain"}), Framing: framing, Chunks: []Chunk{{Data: strings.Repeat("x", 1<<20+4096) + "\n"}, {Data: "the end\n"}}}
+			case "inband-error-only", "inband-error-after-text":
+				// how OpenAI-compatible servers report a failure once the 200 is out: an object with an "error"
+				// member in place of a chunk, then the end marker
+				inband := pickS(r, []string{
+					`data: {"error":{"message":"CUDA out of memory XYZZY","type":"server_error","code":500}}` + "\n\n",
+					`data: {"error":{"message":"model runner crashed XYZZY","type":"internal_error","param":null,"code":"internal_error"},"object":"error"}` + "\n\n",
+					`data: {"error":"worker died XYZZY"}` + "\n\n"})
+				chunks := []Chunk{{Data: role}}
+				if failedStream == "inband-error-after-text" {
+					chunks = append(chunks, Chunk{Data: text})
+				}
+				chunks = append(chunks, Chunk{Data: inband})
+				if r.Chance(700) {
+					chunks = append(chunks, Chunk{Data: done})
+				}
+				ep.Default = Resp{Status: 200, CType: "text/event-stream", Framing: framing, Chunks: chunks}
 			case "done-then-oversized-line":
 				// not a failure at all: a whole completion, [DONE], and then something the translator cannot
 				// read any more, while the backend still has a megabyte to get rid of. The message is complete;
